@@ -236,6 +236,14 @@ func (p *Prog) keyOf1(v ssa.Value, env *KeyEnv, depth int, busy map[ssa.Value]bo
 				}
 				c, ok := constInt(e)
 				if !ok {
+					// a byte parameter of a key helper, bound to a constant at the call site
+					if rv, renv := resolveParam(e, env); rv != e {
+						_ = renv
+						if c2, ok2 := constInt(rv); ok2 {
+							buf[i] = byte(c2)
+							continue
+						}
+					}
 					if n == 1 {
 						return &Key{Parts: []Part{{Kind: "byte", Val: e}}}
 					}
@@ -426,26 +434,9 @@ func (p *Prog) callKey(c *ssa.Call, result int, env *KeyEnv, depth int, busy map
 		if len(sep.Parts) != 0 {
 			return unknownKey("bytes.Join with separator")
 		}
-		sl, ok := args[0].(*ssa.Slice)
+		ks, ok := p.segList(args[0], env, depth+1, busy)
 		if !ok {
-			return unknownKey("bytes.Join of non-literal")
-		}
-		a, ok := sl.X.(*ssa.Alloc)
-		if !ok {
-			return unknownKey("bytes.Join of non-literal")
-		}
-		n := arrayLen(a.Type())
-		elems, ok := arrayLitElems(a)
-		if !ok {
-			return unknownKey("bytes.Join literal")
-		}
-		var ks []*Key
-		for i := int64(0); i < n; i++ {
-			e, has := elems[i]
-			if !has {
-				continue
-			}
-			ks = append(ks, p.keyOf(e, env, depth+1, busy))
+			return unknownKey("bytes.Join of a list that is not built from literals and appends")
 		}
 		return concatKeys(ks...)
 	case d.Name == "Bytes" && d.Recv == "ChainID":
@@ -497,6 +488,103 @@ func (p *Prog) callKey(c *ssa.Call, result int, env *KeyEnv, depth int, busy map
 		return &Key{Parts: []Part{{Kind: "bytes", Val: c, Why: d.String()}}}
 	}
 	return unknownKey("call " + d.String())
+}
+
+// resolveParam follows a parameter (through conversions) to the actual bound in the key environment.
+func resolveParam(v ssa.Value, env *KeyEnv) (ssa.Value, *KeyEnv) {
+	for i := 0; i < 8; i++ {
+		switch x := v.(type) {
+		case *ssa.Convert:
+			v = x.X
+			continue
+		case *ssa.ChangeType:
+			v = x.X
+			continue
+		case *ssa.Parameter:
+			fn := x.Parent()
+			idx := paramIndex(fn, x)
+			if env != nil && env.Fn == fn && env.Site != nil && idx >= 0 && idx < len(env.Site.Call.Args) {
+				v = env.Site.Call.Args[idx]
+				env = env.Parent
+				continue
+			}
+		}
+		break
+	}
+	return v, env
+}
+
+// segList evaluates a [][]byte value that is built from literals, make([][]byte, 0, n), appends and
+// (variadic) parameters to the sequence of its elements' key shapes.
+func (p *Prog) segList(v ssa.Value, env *KeyEnv, depth int, busy map[ssa.Value]bool) ([]*Key, bool) {
+	if depth > 14 || v == nil {
+		return nil, false
+	}
+	switch x := v.(type) {
+	case *ssa.Const:
+		return nil, x.Value == nil
+	case *ssa.MakeSlice:
+		if c, ok := constInt(x.Len); ok && c == 0 {
+			return nil, true
+		}
+		return nil, false
+	case *ssa.Slice:
+		if x.Low != nil || x.High != nil {
+			return nil, false
+		}
+		a, ok := x.X.(*ssa.Alloc)
+		if !ok {
+			return p.segList(x.X, env, depth+1, busy)
+		}
+		n := arrayLen(a.Type())
+		elems, ok := arrayLitElems(a)
+		if !ok || n < 0 {
+			return nil, false
+		}
+		var ks []*Key
+		for i := int64(0); i < n; i++ {
+			e, has := elems[i]
+			if !has {
+				continue
+			}
+			ks = append(ks, p.keyOf(e, env, depth+1, busy))
+		}
+		return ks, true
+	case *ssa.Parameter:
+		fn := x.Parent()
+		idx := paramIndex(fn, x)
+		if env != nil && env.Fn == fn && env.Site != nil && idx >= 0 && idx < len(env.Site.Call.Args) {
+			return p.segList(env.Site.Call.Args[idx], env.Parent, depth+1, busy)
+		}
+		return nil, false
+	case *ssa.UnOp:
+		if x.Op == token.MUL {
+			if a, ok := x.X.(*ssa.Alloc); ok {
+				var st *ssa.Store
+				n := 0
+				for _, r := range *a.Referrers() {
+					if s, ok := r.(*ssa.Store); ok && s.Addr == a {
+						st = s
+						n++
+					}
+				}
+				if n == 1 {
+					return p.segList(st.Val, env, depth+1, busy)
+				}
+			}
+		}
+		return nil, false
+	case *ssa.Call:
+		if b, ok := x.Call.Value.(*ssa.Builtin); ok && b.Name() == "append" && len(x.Call.Args) == 2 {
+			a, ok1 := p.segList(x.Call.Args[0], env, depth+1, busy)
+			b2, ok2 := p.segList(x.Call.Args[1], env, depth+1, busy)
+			if ok1 && ok2 {
+				return append(append([]*Key{}, a...), b2...), true
+			}
+		}
+		return nil, false
+	}
+	return nil, false
 }
 
 func commonPrefix(a, b *Key) *Key {
